@@ -10,7 +10,7 @@ import traceback
 
 from .core import AnalysisError, Run, Source, finish, VERIF
 
-PROPERTIES = ["C01", "C02", "C03", "C04", "C05", "C06", "C07", "C08", "C09", "C10", "C11", "C12", "C14", "C15", "C16", "C18",
+PROPERTIES = ["C01", "C02", "C03", "C04", "C05", "C06", "C07", "C08", "C09", "C10", "C11", "C12", "C13", "C14", "C15", "C16", "C18",
               "C19", "C20"]
 
 
